@@ -22,6 +22,8 @@ def sh(cmd, **kw):
 
 
 def build(bdir, targets):
+    # always rebuild from the current working tree: timestamps are not trusted
+    shutil.rmtree(bdir, ignore_errors=True)
     os.makedirs(bdir, exist_ok=True)
     r = sh(["make", "-s", "-C", HERE, "-j16", "REPO=" + REPO, "B=" + bdir] + targets)
     if r.returncode != 0:
